@@ -74,6 +74,16 @@ def apis(tmp):
         'pathlib.rglob': lambda p, e, l: list(PL.Path(tmp).rglob(p, flags=PL.BRACE | PL.SPLIT, **kw(l, e))),
     }
 
+    # the same entry points with every other flag that reaches the loops in which patterns are counted (result shaping,
+    # uniqueness, negation, platform): the count does not depend on them
+    for xname, xf in (('NOUNIQUE', G.NOUNIQUE), ('NODIR|MARK', G.NODIR | G.MARK), ('NEGATE|NEGATEALL', G.NEGATE | G.NEGATEALL), ('MATCHBASE|GLOBSTAR', G.MATCHBASE | G.GLOBSTAR),
+                      ('FORCEWIN', G.FORCEWIN), ('REALPATH', G.REALPATH), ('SCANDOTDIR|DOTGLOB', G.SCANDOTDIR | G.DOTGLOB)):
+        d['glob.glob+' + xname] = lambda p, e, l, xf=xf: G.glob(p, flags=(G.BRACE | G.SPLIT | xf) & ~G.REALPATH, root_dir=tmp, **kw(l, e))
+        d['glob.globmatch+' + xname] = lambda p, e, l, xf=xf: G.globmatch('zz', p, flags=G.BRACE | G.SPLIT | xf, **kw(l, e))
+        if xname in ('NOUNIQUE', 'NODIR|MARK', 'SCANDOTDIR|DOTGLOB'):
+            d['pathlib.glob+' + xname] = lambda p, e, l, xf=xf: list(PL.Path(tmp).glob(p, flags=PL.BRACE | PL.SPLIT | xf, **kw(l, e)))
+            d['pathlib.rglob+' + xname] = lambda p, e, l, xf=xf: list(PL.Path(tmp).rglob(p, flags=PL.BRACE | PL.SPLIT | xf, **kw(l, e)))
+
     def wcm(p, e, l):
         # WcMatch takes one file pattern string ('|' separated) and one folder-exclude pattern
         k = {} if l is None else {'limit': l}
